@@ -549,7 +549,7 @@ def arcSupersede (a : Agent) (replaced : List Cand) (c : Cand) : Agent × List O
     (a, acc.2 ++ r.2)) (a, [])
 
 def arcPairUp (a : Agent) (c : Cand) : Agent :=
-  (a.locals.filter fun (x : Cand) => x.net == c.net).foldl (fun (a : Agent) (l : Cand) =>
+  (a.locals.filter fun (x : Cand) => x.net == c.net && c.tt != 2).foldl (fun (a : Agent) (l : Cand) =>
     match a.findPair l c with
     | some _ => a
     | none => (a.addPair l c).1) a
@@ -626,7 +626,7 @@ def hiDiscover (a : Agent) (l : Cand) (src : Nat) (m : Msg) : Agent × List Out 
   | some r => (a, [], some r)
   | none =>
     let c : Cand := { uid := 0, ty := 3, net := l.net, addr := src, comp := l.comp, rel := some 0,
-                      prio := match m.prio with | some p => if p == 0 then prflxPriority l.comp else p | none => prflxPriority l.comp }
+                      prio := match m.prio with | some p => if p == 0 then prflxPriority l.net l.comp else p | none => prflxPriority l.net l.comp }
     a.addRemoteCandidate c
 
 def hiRequest (a : Agent) (now : Nat) (l : Cand) (m : Msg) (o0 : List Out) (rc : Option Cand) : Agent × List Out :=
